@@ -110,6 +110,10 @@ def body (j : Json) : P Body := do
   | "fail" => pure (.fail (← str (← field j "t")))
   | "failIf" => pure (.failIf (← int (← field j "k")) (← str (← field j "t")))
   | "failGe" => pure (.failGe (← int (← field j "k")) (← str (← field j "t")))
+  | "genexp" => do
+    -- a generator object is materialised to the list of its items by both runners
+    let k ← nat (← field j "k")
+    pure (.const (Val.mkLst ((List.range k).map fun i => Val.int (Int.ofNat i))))
   | "nonBool" => pure .nonBool
   | "wrongArity" => pure (.wrongArity (← str (← field j "t")) (← nat (← field j "k")))
   | "handler" => match fieldD j "k" .null with
